@@ -112,7 +112,10 @@ def main(argv=None):
 
     # generator health: class floors
     gen_n = tally.case_counts.get('generated', 0)
-    for label, floor in getattr(check, 'FLOORS', {}).items():
+    # (with failures at hand they are what gets reported: a broken tree may also shift the class
+    # fractions, and that must not turn a VIOLATION into a harness error)
+    floors = {} if tally.buckets else getattr(check, 'FLOORS', {})
+    for label, floor in floors.items():
         frac = tally.labels.get(label, 0) / max(1, gen_n)
         # (20 % slack: the floors were set from measured fractions at a few seeds)
         if gen_n and frac < 0.8 * floor and not tally.budget_exhausted:
